@@ -163,6 +163,7 @@ class Org(Symbol):
     name: str
     part_of: TList[Org] = field(default_factory=list)
     partner: TSet[Org] = field(default_factory=set)
+    ally: TSet[Org] = field(default_factory=set)
 
 
 @dataclass(eq=False)
@@ -182,7 +183,16 @@ class Partner(PropertyDescriptor, HasInverseProperty):
         return Partner
 
 
+@dataclass
+class Ally(PropertyDescriptor, TransitiveProperty, HasInverseProperty):
+    """symmetric (its own inverse) and transitive: asserting one fact changes the sets of many objects"""
+    @classmethod
+    def get_inverse(cls):
+        return Ally
+
+
 Org.part_of = PartOf(Org, "part_of")
+Org.ally = Ally(Org, "ally")
 Dept.belongs_to = PartOf(Dept, "belongs_to")
 Org.partner = Partner(Org, "partner")
 
@@ -542,6 +552,11 @@ def run_impl(descr) -> Dict[str, Any]:
                 objs[s] = None
                 gc.collect()
                 continue
+            if how.startswith("update_from:") or how.startswith("extend_from:"):
+                # the argument is ANOTHER object's live managed container (which inference may change during the call)
+                other = getattr(objs[int(how.split(":")[1])], name)
+                (getattr(o, name).update if how.startswith("update") else getattr(o, name).extend)(other)
+                continue
             if how == "set":
                 setattr(o, name, vals[0])
             elif how == "append":
@@ -790,10 +805,31 @@ def gen_op(fam: Family, pop, rng: core.Rng, single: bool = False):
     return None
 
 
+def gen_from_op(fam: Family, pop, ops, rng: core.Rng):
+    """a.f.update(b.f) / a.f.extend(b.f): the facts asserted are (a, f, x) for the x that b.f holds at that moment"""
+    # set fields only: what a list field holds is known to the generator only as a set (multiplicities depend on the history)
+    cands = [f for f, k in enumerate(fam.kind) if k == "set" and fam.canon[f] == f]
+    if not cands:
+        return None
+    f = rng.choice(cands)
+    ci = fam.flds[f][0]
+    srcs = [i for i, p in enumerate(pop) if fam.classes[p[0]] is fam.classes[ci]]
+    if len(srcs) < 2:
+        return None
+    a, b = rng.sample(srcs, 2)
+    C = py_closure(fam, pop, ctor_edges(pop) + [(s, g, t) for _, s, g, ts in ops for t in ts])
+    ts = sorted(t for s, g, t in C if s == b and g == f)
+    if not ts or any(pop_key(pop[t]) is not None for t in ts):
+        return None
+    return [("update_from:" if fam.kind[f] == "set" else "extend_from:") + str(b), a, f, ts]
+
+
 def gen_history(fam: Family, pop, rng: core.Rng, nops: int, single: bool = False):
     ops = []
     for _ in range(nops):
         op = gen_op(fam, pop, rng, single)
+        if not single and not fam.has_subclass_keys() and rng.chance(0.12):
+            op = gen_from_op(fam, pop, ops, rng) or op
         if op is None:
             continue
         if admissible(fam, pop, ctor_edges(pop) + [(s, f, t) for _, s, f, ts in ops + [op] for t in ts]):
@@ -986,7 +1022,7 @@ def run(tier: str, seed: int, replay=None) -> int:
         "field agreement: list and single-valued fields object by object; set fields up to == (a Python set cannot hold two equal objects: the graph still records the relation to each of them)",
         "constructor arguments: non-empty containers only, and only where every same-object field written by inference is declared earlier (K_ctor_halfbuilt, C15-c, replayed from its witness)",
     ]
-    rep.rule = ("random populations whose objects are partly built with NON-EMPTY containers handed to the constructor, in family N partly with two distinct objects that compare and hash equal; random assertion histories (1-9 write operations: append/insert/extend/+=/assignment, add/update/|=, scalar assignment) "
+    rep.rule = ("random populations whose objects are partly built with NON-EMPTY containers handed to the constructor, in family N partly with two distinct objects that compare and hash equal; random assertion histories (1-9 write operations, among them a.f.update(b.f) / a.f.extend(b.f) with another object's live field as argument: append/insert/extend/+=/assignment, add/update/|=, scalar assignment) "
                 "over random populations of the university model and of four harness-defined schemas (diamond of sub-properties + transitive "
                 "inverse pair with cycles + role taker; one transitive descriptor on two domain classes + self-inverse relation; a 4-level sub-property chain whose domain classes and role taker skip levels; the university model with instances of subclasses Student(Person) / Startup(Company) as sources, targets and role takers), partly with an object released and collected in mid-history, plus ALL "
                 "permutations of fact sets of <= 5 (thorough <= 6) facts; non-trivial = the closure is strictly larger than the asserted set; "
@@ -1074,6 +1110,13 @@ def run(tier: str, seed: int, replay=None) -> int:
         if (keyed_E_same and only_dup and in_subclass_duplicate_class(d)
                 and any(f.cls == "K_subclass_keys" for f in findings if f.kind == "open")):
             kf_instances["K_subclass_keys"] = kf_instances.get("K_subclass_keys", 0) + 1   # C15-e: graph exactly as the key-level model, only the duplicate
+            continue
+        if (any(op[0].startswith("update_from:") for op in d["ops"]) and (impl["exc"] or "").startswith("RuntimeError: Set changed size during iteration")
+                and any(f.cls == "K_update_live" for f in findings if f.kind == "open")):
+            if cname in open_names and open_names[cname].cls == "K_update_live":
+                rep.known(open_names[cname])
+            else:
+                kf_instances["K_update_live"] = kf_instances.get("K_update_live", 0) + 1   # C15-f: the recorded failure, in its class
             continue
         if (model_same and in_equal_twins_class(d, spec) and any(f.cls == "K_equal_twins" for f in findings if f.kind == "open")):
             kf_instances["K_equal_twins"] = kf_instances.get("K_equal_twins", 0) + 1    # instance of C15-b, exactly as the model predicts
